@@ -488,6 +488,23 @@ class Engine:
             return [(SeqV(ln, lambda k, st_, lo=lo, v=v: v.elem(lo + k, st_), "slice"), s)]
         if isinstance(v, TS):
             return [(v.slice(lo, hi), s)]
+        if is_sym(v) and z3.is_string(v):
+            from . import rxops
+            n = z3.Length(v)
+            known = rxops.piece_slice(s, v, lo, hi)
+            if known is not None:
+                return [(known, s)]
+            if lo is None and hi is not None:
+                known = rxops.lookup(s, v, hi, "prefix")
+                if known is not None:
+                    return [(known, s)]
+            if hi is None and lo is not None:
+                known = rxops.lookup(s, v, lo, "suffix")
+                if known is not None:
+                    return [(known, s)]
+            clamp = lambda x, d: d if x is None else z3.If(to_z3(x) < 0, Max(n + x, 0), Min(x, n))
+            lo2, hi2 = clamp(lo, z3.IntVal(0)), clamp(hi, n)
+            return [(z3.SubString(v, lo2, Max(hi2 - lo2, 0)), s)]
         raise Unsupported(f"slice of {v!r}")
 
     def theory_op(self, v, name, args, s):
@@ -515,6 +532,17 @@ class Engine:
                 if (c, "__getitem__") in self.methods:
                     return self.methods[(c, "__getitem__")](self, s, v, (i,), {})
             if v.cls == "dict" and "@items" in h:
+                if is_sym(i) and z3.is_string(i) and all(isinstance(k_, str) for k_ in h["@items"]):
+                    # a symbolic string key: one path per key it may equal, KeyError otherwise
+                    res = []
+                    for k_, val_ in h["@items"].items():
+                        s2 = self.fork(s, i == z3.StringVal(k_))
+                        if self.feasible(s2.pc):
+                            res.append((val_, s2))
+                    s3 = self.fork(s, z3.And(*[i != z3.StringVal(k_) for k_ in h["@items"]]) if h["@items"] else z3.BoolVal(True))
+                    if self.feasible(s3.pc):
+                        self.raise_("KeyError", s3)
+                    return res
                 if is_sym(i):
                     raise Unsupported("symbolic dict key")
                 if i in h["@items"]:
@@ -556,6 +584,15 @@ class Engine:
                 return [(v.d[i], s)]
             self.raise_("KeyError", s)
             return []
+        if is_sym(v) and z3.is_string(v):
+            from . import rxops
+            known = rxops.piece_index(s, v, i)
+            if known is not None:
+                return [(known, s)]
+            n = z3.Length(v)
+            iz = to_z3(i)
+            self.oblige("index-in-bounds", s, z3.And(iz >= -n, iz < n), kind="safety")
+            return [(z3.SubString(v, z3.If(iz < 0, n + iz, iz), 1), s)]
         raise Unsupported(f"subscript of {v!r}")
 
     def case_index(self, seq, i, s):
@@ -1618,7 +1655,12 @@ class Engine:
                     raise Unsupported(f"loop {lid} (line {n.lineno}) over a symbolic sequence needs an invariant")
                 outs += self.for_symbolic(n, seq, s0, lid, spec)
                 continue
-            items = self.iter_concrete(seq, s0)
+            citer = seq if isinstance(seq, Ref) and seq.cls == "@citer" else None
+            if citer is not None:
+                h = s0.H(citer)
+                items = list(h["items"][h["pos"]:])
+            else:
+                items = self.iter_concrete(seq, s0)
             frontier = [("normal", None, s0)]
             broke = []
             for item in items:
@@ -1628,6 +1670,8 @@ class Engine:
                         nxt.append((kind, val, s))
                         continue
                     s = self.fork(s)
+                    if citer is not None:
+                        s.H(citer)["pos"] += 1      # an explicit iterator is consumed item by item (a later loop continues after it)
                     self.assign(n.target, item, s)
                     for k2, v2, s2 in self.run(n.body, s):
                         if k2 == "continue":
@@ -1803,6 +1847,8 @@ def _b_len(eng, s, args, kw):
         return [(v.f["len"], s)]
     if isinstance(v, Rec):
         return [(len(v.f), s)]
+    if is_sym(v) and z3.is_string(v):
+        return [(z3.Length(v), s)]
     return [(len(v), s)]
 
 
@@ -2008,18 +2054,35 @@ def _b_int(eng, s, args, kw):
     if z3.is_real(x):
         return [(z3.If(x >= 0, z3.ToInt(x), -z3.ToInt(-x)), s)]
     if z3.is_string(x):
-        # int(s) of a string of ASCII digits (anything else raises ValueError)
+        # int(s): optional white space, optional sign, decimal digits (any Unicode Nd) with single underscores between them.
+        # ASCII digits give the exact value; other digit scripts an uninterpreted one (PY_INT); anything else raises ValueError
+        d_ascii = z3.Range("0", "9")
+        if not eng.feasible(s.pc + [z3.Not(z3.InRe(x, z3.Plus(d_ascii)))]):
+            return [(z3.StrToInt(x), s)]          # known to be a plain run of ASCII digits
+        nd = getattr(eng, "unicode_nd", None) or [[48, 57]]
+        d_any = z3.Union(*[z3.Range(chr(a), chr(b)) for a, b in nd]) if len(nd) > 1 else d_ascii
+        ws = z3.Union(*[z3.Range(chr(a), chr(b)) for a, b in ((9, 13), (28, 32), (0x85, 0x85), (0xa0, 0xa0), (0x1680, 0x1680), (0x2000, 0x200a),
+                                                            (0x2028, 0x2029), (0x202f, 0x202f), (0x205f, 0x205f), (0x3000, 0x3000))])
+        sign = z3.Option(z3.Union(z3.Re("+"), z3.Re("-")))
+        body = lambda d: z3.Concat(z3.Plus(d), z3.Star(z3.Concat(z3.Re("_"), z3.Plus(d))))
+        full = z3.Concat(z3.Star(ws), sign, body(d_any), z3.Star(ws))
+        plain = z3.Concat(sign, z3.Plus(d_ascii))
         out = []
-        for ok, s2 in eng.split(s, z3.InRe(x, z3.Plus(z3.Range("0", "9")))):
-            if ok:
-                out.append((z3.StrToInt(x), s2))
-            else:
+        for ok, s2 in eng.split(s, z3.InRe(x, full)):
+            if not ok:
                 eng.raise_("ValueError", s2)
+                continue
+            neg = z3.PrefixOf(z3.StringVal("-"), x)
+            signed = z3.PrefixOf(z3.StringVal("-"), x) if False else z3.Or(neg, z3.PrefixOf(z3.StringVal("+"), x))
+            digits = z3.If(signed, z3.SubString(x, 1, z3.Length(x) - 1), x)
+            val = z3.If(z3.InRe(x, plain), z3.If(neg, -z3.StrToInt(digits), z3.StrToInt(digits)), PY_INT(x))
+            out.append((val, s2))
         return out
     raise Unsupported("int() of symbolic non-number")
 
 
 PY_FLOAT = z3.Function("py_float", z3.StringSort(), z3.RealSort())
+PY_INT = z3.Function("py_int", z3.StringSort(), z3.IntSort())
 
 
 def _b_float(eng, s, args, kw):
@@ -2109,6 +2172,9 @@ def _b_iter(eng, s, args, kw):
         for c in eng.mro(v.cls):
             if (c, "__iter__") in eng.methods:
                 return eng.methods[(c, "__iter__")](eng, s, v, (), {})
+    if isinstance(v, (tuple, list)):
+        s = eng.fork(s)
+        return [(s.new("@citer", {"items": tuple(v), "pos": 0}), s)]
     return [(v, s)]
 
 
